@@ -197,6 +197,7 @@ def run(rep, ctx):
     with rep.guard("R06.7"):
         SR.index_spaces(rep, M, "R06.7")
         SR.orbit_source(rep, M, "R06.7")
+        SR.letter_spaces(rep, M, "R06.7")
     rep.rule("R06.8", "the chosen normalizer is applied to the positions in the convention of the table (letters and positions stay in step)")
     with rep.guard("R06.8"):
         from . import c05 as _c05
